@@ -514,12 +514,23 @@ var runtimeSystem = map[string]bool{"GC worker (idle)": true, "GC sweep wait": t
 // that only a goroutine of this process could release. That is a deadlock by a
 // LOGICAL criterion (nobody is left to run), not by elapsed time.
 func AllParked(dump string, selfRunning bool) bool {
-	ms := goroutineHdr.FindAllStringSubmatch(dump, -1)
-	if len(ms) == 0 {
-		return false
-	}
+	_, ok := parkedSet(dump, selfRunning)
+	return ok
+}
+
+// parkedSet is AllParked plus a fingerprint of who waits where (goroutine ids and wait reasons), so that a caller can
+// ask for the same picture twice.
+func parkedSet(dump string, selfRunning bool) (string, bool) {
+	blocks := strings.Split(dump, "\n\n")
 	user := 0
-	for _, m := range ms {
+	var fp []string
+	seen := false
+	for _, blk := range blocks {
+		m := goroutineHdr.FindStringSubmatch(blk)
+		if m == nil {
+			continue
+		}
+		seen = true
 		st := m[2]
 		if i := strings.Index(st, ","); i >= 0 {
 			st = st[:i]
@@ -532,11 +543,25 @@ func AllParked(dump string, selfRunning bool) bool {
 			continue
 		}
 		if !parkedStates[st] {
-			return false
+			return "", false
 		}
+		if st == "semacquire" {
+			// the runtime uses the same wait reason for its own semaphores (a goroutine that allocates while the
+			// world is being stopped for this very dump, or while a GC cycle starts, shows as [semacquire] below
+			// bytes.growSlice or runtime.GC): only a wait entered through package sync is one that another
+			// goroutine of the program has to end
+			lines := strings.SplitN(blk, "\n", 3)
+			if len(lines) < 2 || !(strings.HasPrefix(lines[1], "sync.") || strings.HasPrefix(lines[1], "internal/sync.")) {
+				return "", false
+			}
+		}
+		fp = append(fp, m[1]+":"+st)
 		user++
 	}
-	return user > 0
+	if !seen {
+		return "", false
+	}
+	return strings.Join(fp, " "), user > 0
 }
 
 // EnableParkWatch starts the quiescence oracle for "no lost wake-up, no
@@ -549,11 +574,12 @@ func (c *Ctx) EnableParkWatch(sub string) {
 	go func() {
 		last := c.ticks.Load()
 		idle := 0
+		lastFP := ""
 		for {
 			time.Sleep(250 * time.Millisecond)
 			t := c.ticks.Load()
 			if t != last {
-				last, idle = t, 0
+				last, idle, lastFP = t, 0, ""
 				continue
 			}
 			idle++
@@ -563,8 +589,14 @@ func (c *Ctx) EnableParkWatch(sub string) {
 			buf := make([]byte, 1<<20)
 			n := runtime.Stack(buf, true)
 			dump := string(buf[:n])
-			if !AllParked(dump, true) {
-				idle = 4 // look again in a second
+			fp, parked := parkedSet(dump, true)
+			if !parked {
+				idle, lastFP = 4, "" // look again in a second
+				continue
+			}
+			if fp != lastFP {
+				// the verdict needs the same picture twice, a second apart: the same goroutines in the same waits
+				idle, lastFP = 4, fp
 				continue
 			}
 			d := ""
